@@ -38,12 +38,18 @@ FilePre  == {"identical", "empty", "shorter-mid", "shorter-boundary", "shorter-d
 UnprivPre == {"unreadable-identical", "unreadable-diff", "unreadable-longer-diff", "unreadable-shorter",
               "readonly-diff", "readonly-longer"}
 OtherPre == {"missing", "dir-empty", "dir-nonempty", "symlink-file", "symlink-dangling", "symlink-dir"}
+\* a symlink in the way whose pointee is a readable regular file related to the snapshot file: identical content,
+\* only the first / only the last blob identical (at the same offset), identical prefix but longer; the pointee
+\* lives outside ("-out") or inside ("-in") the restore target.  The item AT THE PATH is the symlink, whatever it
+\* points to: the demand is the same as for any other symlink in the way.
+SymPre   == {"symlink-same-out", "symlink-same-in", "symlink-first-out", "symlink-first-in",
+             "symlink-last-out", "symlink-last-in", "symlink-longer-out", "symlink-longer-in"}
 Mtimes   == {"older", "equal", "newer"}
 
 PreKind(p) ==
   IF p = "missing" THEN "missing"
   ELSE IF p \in {"dir-empty", "dir-nonempty"} THEN "dir"
-  ELSE IF p \in {"symlink-file", "symlink-dangling", "symlink-dir"} THEN "symlink"
+  ELSE IF p \in {"symlink-file", "symlink-dangling", "symlink-dir"} \cup SymPre THEN "symlink"
   ELSE "file"
 
 \* what the statement demands for the path: "restored" | "untouched" | "either"
@@ -64,6 +70,7 @@ Cell(s, p, mt, m, sp, del, un) ==
 Cells ==
   {Cell(s, p, mt, m, sp, FALSE, FALSE) : s \in SnapFiles, p \in FilePre, mt \in Mtimes, m \in Modes, sp \in BOOLEAN}
   \cup {Cell(s, p, "older", m, sp, del, FALSE) : s \in SnapFiles, p \in OtherPre, m \in Modes, sp \in BOOLEAN, del \in BOOLEAN}
+  \cup {Cell(s, p, mt, m, sp, FALSE, FALSE) : s \in SnapFiles, p \in SymPre, mt \in {"older", "equal"}, m \in Modes, sp \in BOOLEAN}
   \cup {Cell(s, p, mt, m, sp, FALSE, TRUE) : s \in SnapFiles, p \in UnprivPre \cup {"missing", "same-diff-all", "longer-diff"},
                                             mt \in {"older", "equal"}, m \in Modes, sp \in BOOLEAN}
 
